@@ -99,6 +99,10 @@ class C02(Prop):
             return sig
         m = re.search(r'diff=(\S+)', a)
         sig['diff'] = m.group(1) if m else ('reopen-failed' if 'reopen-failed' in a else 'digest')
+        if sig['diff'].startswith('unreadable-after-reopen'):
+            # the entity (an HDF5 object written in the session just closed) cannot be opened from the reopened file;
+            # record whether an entity had been deleted earlier in the history (the condition of the known finding)
+            sig['after_delete'] = any(l.split(' ')[0] in ('del', 'delh') for l in case.lines[:i])
         if sig['diff'] == '-':
             # the implementation agrees with itself; what it shows is not what the model predicts for the history
             sig['diff'] = 'tree-differs-from-model'
